@@ -199,7 +199,12 @@ func vpC31GenDate() *rapid.Generator[vpC31Date] {
 }
 
 // vpC31CheckDate applies the date oracle to one string and reports what each parser said.
-func vpC31CheckDate(t *rapid.T, s string) (fastOK, stdOK bool) {
+// vpC31T is what the oracles need from *rapid.T / *testing.T.
+type vpC31T interface {
+	Fatalf(format string, args ...any)
+}
+
+func vpC31CheckDate(t vpC31T, s string) (fastOK, stdOK bool) {
 	in := []byte(s)
 	ft, fastOK := parseRFC1123DateGMT(in)
 	if string(in) != s {
@@ -793,6 +798,34 @@ func vpC31IsIPv6(s string) bool {
 	return err == nil && a.Is6()
 }
 
+// vpC31CheckValidate applies the white-box oracle to validateIPv6Literal for a host that starts
+// with '['. The address part the validator looks at is the text up to the first ']'.
+func vpC31CheckValidate(t vpC31T, host string) (valid, accepted bool) {
+	in := []byte(host)
+	err := validateIPv6Literal(in)
+	if string(in) != host {
+		t.Fatalf("validateIPv6Literal modified its input")
+	}
+	end := strings.IndexByte(host, ']')
+	zoneless := false
+	part := ""
+	if end >= 0 {
+		part = host[1:end]
+		valid = vpC31IsIPv6(part)
+		zoneless = !strings.Contains(part, "%")
+	}
+	if err == nil && !valid {
+		t.Fatalf("validateIPv6Literal(%q) accepts, but %q is not an IPv6 address per net/netip", host, part)
+	}
+	if err != nil && valid && zoneless {
+		t.Fatalf("validateIPv6Literal(%q) = %v, but %q is a zone-less IPv6 address per net/netip", host, err, part)
+	}
+	if err != nil && valid && !zoneless {
+		vpExtra("validate_zoned_valid_rejected", 1)
+	}
+	return valid, err == nil
+}
+
 // White-box: validateIPv6Literal on "[" addr "]" suffix. The address part the validator looks at is
 // the text up to the first ']'.
 func TestVP_C31_ValidateIPv6Literal(t *testing.T) {
@@ -803,33 +836,12 @@ func TestVP_C31_ValidateIPv6Literal(t *testing.T) {
 		if rapid.IntRange(0, 39).Draw(t, "unterminated") == 17 {
 			host = "[" + lit.addr
 		}
-		in := []byte(host)
-		err := validateIPv6Literal(in)
-		if string(in) != host {
-			t.Fatalf("validateIPv6Literal modified its input")
-		}
-		end := strings.IndexByte(host, ']')
-		valid, zoneless := false, false
-		part := ""
-		if end >= 0 {
-			part = host[1:end]
-			valid = vpC31IsIPv6(part)
-			zoneless = !strings.Contains(part, "%")
-		}
+		valid, accepted := vpC31CheckValidate(t, host)
 		class := "validate/" + lit.shape
 		if valid {
 			class += ",valid"
 		}
-		vpCase(class, true, host, func() string { return fmt.Sprintf("%q netip-valid=%v accepted=%v", host, valid, err == nil) })
-		if err == nil && !valid {
-			t.Fatalf("validateIPv6Literal(%q) accepts, but %q is not an IPv6 address per net/netip", host, part)
-		}
-		if err != nil && valid && zoneless {
-			t.Fatalf("validateIPv6Literal(%q) = %v, but %q is a zone-less IPv6 address per net/netip", host, err, part)
-		}
-		if err != nil && valid && !zoneless {
-			vpExtra("validate_zoned_valid_rejected", 1)
-		}
+		vpCase(class, true, host, func() string { return fmt.Sprintf("%q netip-valid=%v accepted=%v", host, valid, accepted) })
 	})
 }
 
@@ -888,6 +900,61 @@ func vpC31URISafe(h string) bool {
 	return true
 }
 
+// vpC31CheckURIHost applies the black-box oracle to a host that starts with '[': parseHost, and
+// URI.Parse when the host can be embedded in a URI unambiguously. The address part of
+// "[" X "]" port is X, the closing bracket being the one the port follows (the last ']'), as
+// parseHost itself delimits it; X is read raw or percent-decoded, whichever is more lenient.
+func vpC31CheckURIHost(t vpC31T, host string) (valid, excluded, accepted bool) {
+	// reference verdict, from the input alone
+	last := strings.LastIndexByte(host, ']')
+	part := ""
+	portOK := false
+	if last >= 0 {
+		part = host[1:last]
+		valid = vpC31IsIPv6(part)
+		if dec, ok := vpC31PctDecode(part); ok && !valid {
+			valid = vpC31IsIPv6(dec)
+		}
+		tail := host[last+1:]
+		if tail == "" {
+			portOK = true
+		} else if tail[0] == ':' && len(tail) > 1 && len(tail) <= 6 {
+			if n, err := strconv.ParseUint(tail[1:], 10, 16); err == nil && n > 0 && tail[1] != '+' {
+				portOK = true
+			}
+		}
+	}
+	zonelessValid := last >= 0 && !strings.Contains(part, "%") && vpC31IsIPv6(part) && portOK
+	// known-finding classes, decided from the input alone
+	if !valid && last >= 0 && strings.Contains(part, "%25") && vpKnownOpen(vpC31KeyZone) {
+		vpExclude(vpC31KeyZone)
+		return valid, true, false
+	}
+	if !valid && last >= 0 && strings.Contains(part, "]") && vpKnownOpen(vpC31KeyBracket) {
+		vpExclude(vpC31KeyBracket)
+		return valid, true, false
+	}
+	_, perr := parseHost([]byte(host))
+	if perr == nil && !valid {
+		t.Fatalf("parseHost(%q) accepts, but the bracketed part %q is not an IPv6 address per net/netip", host, part)
+	}
+	if perr != nil && zonelessValid {
+		t.Fatalf("parseHost(%q) = %v, but %q is a zone-less IPv6 address per net/netip", host, perr, part)
+	}
+	if vpC31URISafe(host) {
+		var u URI
+		uerr := u.Parse(nil, []byte("http://"+host+"/p?q=1"))
+		vpExtra("urihost_via_URI.Parse", 1)
+		if uerr == nil && !valid {
+			t.Fatalf("URI.Parse(http://%s/p?q=1) accepts (host %q), but %q is not an IPv6 address per net/netip", host, u.Host(), part)
+		}
+		if uerr != nil && zonelessValid {
+			t.Fatalf("URI.Parse(http://%s/p?q=1) = %v, but %q is a zone-less IPv6 address per net/netip", host, uerr, part)
+		}
+	}
+	return valid, false, perr == nil
+}
+
 // Black-box: the same literals as URI hosts, through parseHost and URI.Parse. The address part of
 // "[" X "]" port is X with the closing bracket being the one the port follows (the last ']'), as
 // parseHost itself delimits it; X is read raw or percent-decoded, whichever is more lenient.
@@ -906,49 +973,63 @@ func TestVP_C31_BracketedURIHost(t *testing.T) {
 		if rapid.IntRange(0, 39).Draw(t, "unterminated") == 17 {
 			host = "[" + inner
 		}
-		// reference verdict, from the input alone
-		last := strings.LastIndexByte(host, ']')
-		valid := false
-		part := ""
-		if last >= 0 {
-			part = host[1:last]
-			valid = vpC31IsIPv6(part)
-			if dec, ok := vpC31PctDecode(part); ok && !valid {
-				valid = vpC31IsIPv6(dec)
-			}
-		}
-		zonelessValid := last >= 0 && !strings.Contains(part, "%") && vpC31IsIPv6(part) && (port == "" || port == ":8080") && host[last+1:] == port
-		// known-finding classes, decided from the input alone
-		if !valid && last >= 0 && strings.Contains(part, "%25") && vpKnownOpen(vpC31KeyZone) {
-			vpExclude(vpC31KeyZone)
+		valid, excluded, accepted := vpC31CheckURIHost(t, host)
+		if excluded {
 			return
 		}
-		if !valid && last >= 0 && strings.Contains(part, "]") && vpKnownOpen(vpC31KeyBracket) {
-			vpExclude(vpC31KeyBracket)
-			return
-		}
-		_, perr := parseHost([]byte(host))
 		class := "urihost/" + lit.shape + "," + enc
 		if valid {
 			class += ",valid"
 		}
-		vpCase(class, true, host, func() string { return fmt.Sprintf("%q netip-valid=%v parseHost-accepted=%v", host, valid, perr == nil) })
-		if perr == nil && !valid {
-			t.Fatalf("parseHost(%q) accepts, but the bracketed part %q is not an IPv6 address per net/netip", host, part)
+		vpCase(class, true, host, func() string { return fmt.Sprintf("%q netip-valid=%v parseHost-accepted=%v", host, valid, accepted) })
+	})
+}
+
+// ---------------------------------------------------------------------------------------------
+// native fuzzing (thorough tier): the same oracles on coverage-guided byte strings
+// ---------------------------------------------------------------------------------------------
+
+func FuzzVP_C31_Date(f *testing.F) {
+	for _, s := range []string{
+		"Mon, 02 Jan 2006 15:04:05 GMT", "sun, 29 feb 2024 23:59:59 GMT", "SAT, 31 DEC 9999 00:00:00 GMT",
+		"Tue, 29 Feb 2023 10:00:00 GMT", "Wed, 31 Apr 2021 10:00:00 GMT", "Thu, 00 Jan 0000 00:00:00 GMT",
+		"Fri, 01 Jan 0000 24:00:00 GMT", "Mon, 02 Jan 2006 15:04:60 GMT", "Mon, 02 Jan 2006 15:60:05 GMT",
+		"Mon, 02 Jan 2006  5:04:05 GMT", "Mon, 2 Jan 2006 15:04:05 GMT", "Mon, 02 Jan 2006 15:04:05 UTC",
+		"Monday, 02-Jan-06 15:04:05 GMT", "Mon Jan  2 15:04:05 2006", "", "Mon, 02 Jan 2006 15:04:05.5 GMT",
+	} {
+		f.Add([]byte(s))
+	}
+	f.Fuzz(func(t *testing.T, b []byte) {
+		s := string(b)
+		fastOK, stdOK := vpC31CheckDate(t, s)
+		class := "fuzz/date/both-reject"
+		switch {
+		case fastOK:
+			class = "fuzz/date/fast-accept"
+		case stdOK:
+			class = "fuzz/date/fast-decline,std-accept"
 		}
-		if perr != nil && zonelessValid {
-			t.Fatalf("parseHost(%q) = %v, but %q is a zone-less IPv6 address per net/netip", host, perr, part)
+		vpCase(class, fastOK || stdOK, s, func() string { return fmt.Sprintf("%q", s) })
+	})
+}
+
+func FuzzVP_C31_IPv6Host(f *testing.F) {
+	for _, s := range []string{
+		"::1]", "::]", "1:2:3:4:5:6:7:8]", "::ffff:1.2.3.4]:80", "fe80::1%25eth0]", "fe80::1%eth0]", "1::2::3]",
+		"1:2:3:4:5:6:7::8]", "1:2:3:4:5:6:7:8:9]", ":1::2]", "12345::]", "::1.2.3.04]", "1.2.3.4]", "]", "", "::1",
+		"::g]", "1:2:3:4:5:6:1.2.3.4]", "1:2:3:4:5:6:7:1.2.3.4]", "::1]:x", "::%]",
+	} {
+		f.Add([]byte(s))
+	}
+	vpC31Probes()
+	f.Fuzz(func(t *testing.T, b []byte) {
+		host := "[" + string(b) // always a bracketed host
+		valid, accepted := vpC31CheckValidate(t, host)
+		class := "fuzz/ipv6/reject"
+		if accepted {
+			class = "fuzz/ipv6/accept"
 		}
-		if vpC31URISafe(host) {
-			var u URI
-			uerr := u.Parse(nil, []byte("http://"+host+"/p?q=1"))
-			vpExtra("urihost_via_URI.Parse", 1)
-			if uerr == nil && !valid {
-				t.Fatalf("URI.Parse(http://%s/p?q=1) accepts (host %q), but %q is not an IPv6 address per net/netip", host, u.Host(), part)
-			}
-			if uerr != nil && zonelessValid {
-				t.Fatalf("URI.Parse(http://%s/p?q=1) = %v, but %q is a zone-less IPv6 address per net/netip", host, uerr, part)
-			}
-		}
+		vpCase(class, valid || accepted || strings.Contains(host, ":"), host, func() string { return fmt.Sprintf("%q", host) })
+		vpC31CheckURIHost(t, host)
 	})
 }
